@@ -77,7 +77,8 @@ type Site struct {
 	RestoreText  string `json:"restore_text"`
 	RestoreFresh bool   `json:"restore_fresh"`
 	Where        string `json:"where"` // file:line, informational only (never part of the key, not in Coq)
-	Tags         string `json:"tags"`  // informational
+	RestoreWhere string `json:"restore_where,omitempty"`
+	Tags         string `json:"tags"` // informational
 }
 
 type Inventory struct {
@@ -316,6 +317,12 @@ func (c *collector) addText(list *[]Site, listName string, ld *loaded, fn string
 	c.seen[sk] = true
 	*list = append(*list, s)
 	return &(*list)[len(*list)-1]
+}
+
+func (c *collector) whereOf(n ast.Node) string {
+	pos := c.l.fset.Position(n.Pos())
+	relFile, _ := filepath.Rel(c.l.repo, pos.Filename)
+	return fmt.Sprintf("%s:%d", filepath.ToSlash(relFile), pos.Line)
 }
 
 func shapeOf(t types.Type) (string, bool) {
@@ -1467,11 +1474,25 @@ type pendingSite struct {
 
 func (c *collector) analyseTreeWrites(ld *loaded, f *ast.File) {
 	info := ld.info
+	var units []*ast.FuncDecl
 	for _, d := range f.Decls {
-		fd, ok := d.(*ast.FuncDecl)
-		if !ok || fd.Body == nil {
-			continue
+		switch x := d.(type) {
+		case *ast.FuncDecl:
+			if x.Body != nil {
+				units = append(units, x)
+			}
+		case *ast.GenDecl:
+			// function literals in package-level initialisers are functions too
+			ast.Inspect(x, func(n ast.Node) bool {
+				if lit, ok := n.(*ast.FuncLit); ok {
+					units = append(units, &ast.FuncDecl{Name: &ast.Ident{Name: "<package initialiser>", NamePos: lit.Pos()}, Type: lit.Type, Body: lit.Body})
+					return false
+				}
+				return true
+			})
 		}
+	}
+	for _, fd := range units {
 		a := &fnAnalysis{c: c, ld: ld, info: info, fn: funcName(fd),
 			defs: map[*types.Var][]defn{}, cls: map[*types.Var]class{}, param: map[*types.Var]bool{},
 			fdefs: map[fieldKey][]defn{}, fcls: map[fieldKey]class{}, notSimp: map[*types.Var]bool{}}
@@ -1486,8 +1507,15 @@ func (c *collector) analyseTreeWrites(ld *loaded, f *ast.File) {
 		type restoreInfo struct {
 			text  string
 			fresh bool
+			where string
 		}
 		restores := map[*ast.AssignStmt]restoreInfo{}
+		type candidate struct {
+			as, ras, save *ast.AssignStmt
+			saved         *types.Var
+			ri            restoreInfo
+		}
+		var cands []candidate
 		pairBlocks = func(list []ast.Stmt) {
 			for i, st := range list {
 				as, ok := st.(*ast.AssignStmt)
@@ -1523,8 +1551,8 @@ func (c *collector) analyseTreeWrites(ld *loaded, f *ast.File) {
 				if !ok || a.localVar(svid) != a.localVar(saved) || nodeText(c.l.fset, sv.Rhs[0]) != loc {
 					continue
 				}
-				paired[ras] = true
-				restores[as] = restoreInfo{text: nodeText(c.l.fset, df), fresh: sv.Tok == token.DEFINE}
+				cands = append(cands, candidate{as: as, ras: ras, save: sv, saved: a.localVar(saved),
+					ri: restoreInfo{text: nodeText(c.l.fset, df), fresh: sv.Tok == token.DEFINE, where: c.whereOf(ras)}})
 			}
 		}
 		ast.Inspect(fd.Body, func(n ast.Node) bool {
@@ -1538,6 +1566,69 @@ func (c *collector) analyseTreeWrites(ld *loaded, f *ast.File) {
 			}
 			return true
 		})
+		// the saved variable must not be assigned anywhere else in the function (the deferred closure reads
+		// it when the function exits), nor have its address taken; the saving statements of other pattern
+		// instances are tolerated (s_restore_fresh = false marks the shared case)
+		legit := map[*ast.AssignStmt]bool{}
+		savedVars := map[*types.Var]bool{}
+		for _, cd := range cands {
+			legit[cd.save] = true
+			savedVars[cd.saved] = true
+		}
+		clobbered := map[*types.Var]bool{}
+		ast.Inspect(fd.Body, func(n ast.Node) bool {
+			switch s := n.(type) {
+			case *ast.AssignStmt:
+				if legit[s] {
+					return true
+				}
+				for _, l := range s.Lhs {
+					if id, ok := l.(*ast.Ident); ok {
+						if v := a.localVar(id); v != nil && savedVars[v] {
+							clobbered[v] = true
+						}
+					}
+				}
+			case *ast.IncDecStmt:
+				if id, ok := s.X.(*ast.Ident); ok {
+					if v := a.localVar(id); v != nil && savedVars[v] {
+						clobbered[v] = true
+					}
+				}
+			case *ast.RangeStmt:
+				for _, e := range []ast.Expr{s.Key, s.Value} {
+					if id, ok := e.(*ast.Ident); ok {
+						if v := a.localVar(id); v != nil && savedVars[v] {
+							clobbered[v] = true
+						}
+					}
+				}
+			case *ast.UnaryExpr:
+				if s.Op == token.AND {
+					if id, ok := s.X.(*ast.Ident); ok {
+						if v := a.localVar(id); v != nil && savedVars[v] {
+							clobbered[v] = true
+						}
+					}
+				}
+			case *ast.ValueSpec:
+				if len(s.Values) > 0 {
+					for _, id := range s.Names {
+						if v := a.localVar(id); v != nil && savedVars[v] {
+							clobbered[v] = true
+						}
+					}
+				}
+			}
+			return true
+		})
+		for _, cd := range cands {
+			if clobbered[cd.saved] {
+				continue
+			}
+			paired[cd.ras] = true
+			restores[cd.as] = cd.ri
+		}
 
 		report := func(st ast.Node, lhs ast.Expr, kindPrefix string, stmtForKind ast.Stmt) *Site {
 			base, _, pkgv := a.heapBase(lhs)
@@ -1580,7 +1671,7 @@ func (c *collector) analyseTreeWrites(ld *loaded, f *ast.File) {
 					site := report(s, lhs, "", s)
 					if site != nil {
 						if ri, ok := restores[s]; ok {
-							site.Restored, site.RestoreText, site.RestoreFresh = true, ri.text, ri.fresh
+							site.Restored, site.RestoreText, site.RestoreFresh, site.RestoreWhere = true, ri.text, ri.fresh, ri.where
 						}
 					}
 				}
@@ -1788,6 +1879,11 @@ func (c *collector) collectMisc(ld *loaded) {
 		for _, imp := range f.Imports {
 			p, _ := strconv.Unquote(imp.Path.Value)
 			if p == c.l.module || strings.HasPrefix(p, c.l.module+"/") {
+				rel := strings.TrimPrefix(strings.TrimPrefix(p, c.l.module), "/")
+				if post && rel != "ast" && rel != "token" && rel != "internal/explain" {
+					// code that runs on the caller's tree but is not analysed for tree writes
+					c.addText(&c.inv.GoroutinesAndUnsafe, "goroutines_and_unsafe", ld, "<imports>", imp, p, "post-parse-code-imports-unanalysed-package", "import "+p)
+				}
 				continue
 			}
 			if !pureImports[p] {
@@ -1865,8 +1961,8 @@ func (c *collector) collectMisc(ld *loaded) {
 
 type posNode token.Pos
 
-func (p posNode) Pos() token.Pos { return token.Pos(p) }
-func (p posNode) End() token.Pos { return token.Pos(p) }
+func (p posNode) Pos() token.Pos     { return token.Pos(p) }
+func (p posNode) End() token.Pos     { return token.Pos(p) }
 func identNode(p token.Pos) ast.Node { return posNode(p) }
 
 func (c *collector) foreignType(t types.Type, seen map[types.Type]bool) string {
@@ -2000,7 +2096,7 @@ func readFindings(path string) ([]finding, bool) {
 
 func emitAllowed(path string, fs []finding, present bool) string {
 	var b strings.Builder
-	b.WriteString("(* GENERATED by /verif/translator/cmd/sharedgen from " + path + " (entries with property C10) -- do not edit.\n")
+	b.WriteString("(* GENERATED by /verif/translator/cmd/sharedgen from " + path + " (entries with property C10 and status open) -- do not edit.\n")
 	b.WriteString("   An entry here is a KNOWN FINDING (a write to shared state that is present and accepted as known), not a proof that the write is harmless. *)\n")
 	b.WriteString("From Coq Require Import List String.\nImport ListNotations.\nLocal Open Scope string_scope.\n\n")
 	if !present {
@@ -2009,7 +2105,7 @@ func emitAllowed(path string, fs []finding, present bool) string {
 	b.WriteString("Definition allowed : list string :=\n  [")
 	n := 0
 	for _, f := range fs {
-		if f.Property != "C10" || f.Key == "" {
+		if !isOpenC10(f) {
 			continue
 		}
 		if n > 0 {
@@ -2040,7 +2136,7 @@ func main() {
 	repo := flag.String("repo", "/repo", "repository root")
 	out := flag.String("out", "/verif/coq/Gen", "output directory for SharedAccess.v and SharedAllowed.v")
 	report := flag.String("report", "/verif/build/sharedgen_report.json", "JSON report path")
-	findings := flag.String("findings", "/verif/known_findings.json", "known findings (entries with property C10 become the allow-list)")
+	findings := flag.String("findings", "/verif/known_findings.json", "known findings (entries with property C10 and status open become the allow-list)")
 	propose := flag.String("propose", "", "if set: write proposed known-findings entries for every var/tree write site to this path")
 	flag.Parse()
 
@@ -2153,10 +2249,13 @@ func main() {
 		len(inv.PkgVars), len(inv.VarWrites), len(inv.VarInitWrites), len(inv.TreeWrites), len(inv.MapRanges), len(inv.GoroutinesAndUnsafe), countC10(fs))
 }
 
+// only OPEN findings suppress anything; status "fixed" entries record history
+func isOpenC10(f finding) bool { return f.Property == "C10" && f.Status == "open" && f.Key != "" }
+
 func countC10(fs []finding) int {
 	n := 0
 	for _, f := range fs {
-		if f.Property == "C10" && f.Key != "" {
+		if isOpenC10(f) {
 			n++
 		}
 	}
